@@ -239,6 +239,20 @@ def _forecaster(case, ctx):
         if ok:
             ctx.check("equal-params", _eq(a, e, 1e-12), "equal-params:%s:second-fresh-instance-differs" % spec[0], "two fresh forecasters with equal parameters fitted on equal data forecast differently")
     h = zoo.build(spec)
+    reconf = None
+    if spec[0] in ("ensemble", "stack", "online", "multiplex", "pipeline") and case["dseed"] % 2 == 0:
+        # the used instance had OTHER parts in its earlier life (same class, same number of parts) and is then given this case's parameters
+        alt = [spec[0], dict(spec[1])] + [list(x) if isinstance(x, list) else x for x in spec[2:]]
+        simple = ["naive", {"strategy": "mean", "window_length": 2}]
+        if spec[0] == "pipeline":
+            alt[3] = simple
+        else:
+            alt[2] = [simple for _ in spec[2]]
+        try:
+            h = zoo.build(alt)
+            reconf = zoo.build(spec).get_params(deep=False)
+        except Exception:  # noqa
+            h, reconf = zoo.build(spec), None
     m0 = zoo.min_length(spec) + int(rng.integers(4, 30))
     y0 = zoo.make_series(rng, m0, positive=True, off=int(rng.choice([3, 50])), index=case["idx"], kind="walk") * 1.7 + 5.0
     X0 = pd.DataFrame({"x": rng.normal(0, 1, m0)}, index=y0.index) if case["withX"] else None
@@ -248,6 +262,9 @@ def _forecaster(case, ctx):
         used = True
     except Exception:  # noqa
         used = False
+    if used and reconf is not None:
+        h.set_params(**reconf)
+        ctx.tag("used-instance:reconfigured-with-other-parts")
     if used:
         ok, a_again = ctx.call("predict:exception:" + spec[0], f.predict, fh, Xf)
         if ok:
@@ -295,7 +312,13 @@ def _panel(case, ctx):
             probe = _orig_build(name, case["eseed"])
             probe.set_params(**{vk: vv})
             probe.fit(Xtr, y) if sup else probe.fit(Xtr)
-            (probe.predict_proba if name in pzoo.CLASSIFIERS else (probe.predict if name in pzoo.REGRESSORS else probe.transform))(Xte)
+            out_ = (probe.predict_proba if name in pzoo.CLASSIFIERS else (probe.predict if name in pzoo.REGRESSORS else probe.transform))(Xte)
+            if name in pzoo.CLASSIFIERS:
+                if not np.all(np.isfinite(np.asarray(out_, dtype=float))):
+                    # e.g. a dictionary ensemble whose window range is empty for this series length: fitted without any member (outside the properties)
+                    ctx.tag("option-variant-degenerate:%s:%s" % (name, vk))
+                    return
+                probe.predict(Xte)
         except Exception as e:  # noqa
             ctx.tag("option-variant-rejected:%s:%s:%s" % (name, vk, type(e).__name__))
             return
